@@ -178,14 +178,64 @@ def run(ctx):
             violations.append({"what": "descriptor left open after %s when %s failed with %s (before/held/after = %d/%d/%d, expected held %d)" % (desc["op"][0], call, er, fb, fh, fa, expect_held),
                                "classification": {"kind": "residual-under-fault", "op": desc["op"][0], "call": call},
                                "replay": {"kind": "fault", "scenario": L, "fault_seq": seq, "errno": er, "result": impl.results[1][1]}})
+    # at most two open attempts per cache directory for a lookup, also when an open answers ESTALE
+    # (a stale handle is a miss, not a reason to try again)
+    sbases = []
+    for w, rs in ((("sharded", 4, 100), ()), (None, (("sharded", 3),)), (("sharded", 4, 100), (("sharded", 3),)), (("plain", 100), (("sharded", 2),))):
+        for where in ("absent", "secondary"):
+            for opk in (("get",),) + ((("roget",),) if not w else ()):       # the bound is about lookups (touch re-opens write-only by design)
+                L = G.header(w, rs, "none")
+                if where == "secondary":
+                    holder = ("w", w) if w and w[0] == "sharded" else ("r0", rs[0])
+                    L.append(G.plant(G.key_path(holder[1], holder[0], F.KEY, 1), "A"))
+                L += [G.NOFIRE, G.op(0, opk[0], F.KEY)]
+                sbases.append(({"w": w, "rs": rs, "where": where, "op": opk[0]}, L))
+    sjobs = []
+    for desc, L in sbases:
+        clean = S.run_impl(L)
+        if not clean.steps:
+            continue
+        st0 = clean.steps[0]
+        can, seqs = T.canon(st0["events"], with_seq=True)
+        for kk, t in enumerate(can):
+            if t[0] == "open":
+                sjobs.append((desc, L, seqs[kk], kk))
+
+    def sone(job):
+        desc, L, seq, kk = job
+        try:
+            impl = S.run_impl(L, fault=(seq, "ESTALE"))
+            model = S.run_model(S.augment(L, impl, fault_by_step={1: (kk, "ESTALE")}))
+            return job, impl, S.compare(L, impl, model, what=("result", "trace"))
+        except Exception as ex:
+            return job, None, ["EXCEPTION " + repr(ex)]
+    with cf.ThreadPoolExecutor(16) as ex:
+        sres = list(ex.map(sone, sjobs))
+    for (desc, L, seq, kk), impl, diffs in sres:
+        if diffs:
+            ties.append({"what": "model and implementation disagree on a lookup with a stale handle", "case": str(desc), "detail": diffs[:3]})
+        else:
+            fagree += 1
+        if impl is None or not impl.steps:
+            continue
+        nontriv += 1
+        opens = {}
+        for e in impl.steps[0]["events"]:
+            if e["call"] == "open":
+                top = e["path"].split("/")[0]
+                opens[top] = opens.get(top, 0) + 1
+        if any(v > 2 for v in opens.values()):
+            violations.append({"what": "more than two open attempts in one cache directory for a %s when an open answers ESTALE: %s" % (desc["op"], opens),
+                               "classification": {"kind": "opens-under-stale", "op": desc["op"]},
+                               "replay": {"kind": "fault", "scenario": L, "fault_seq": seq, "errno": "ESTALE"}})
     seenf, uniqf = set(), []
     for v in violations:
         kf = tuple(sorted((a, str(b)) for a, b in v["classification"].items()))
-        if v["classification"].get("kind") != "residual-under-fault" or kf not in seenf:
+        if v["classification"].get("kind") not in ("residual-under-fault", "opens-under-stale") or kf not in seenf:
             seenf.add(kf); uniqf.append(v)
     violations = uniqf
-    cov = {"evaluations": len(res) + len(fres), "distinct_nontrivial": nontriv, "fault_runs": len(fres),
-           "rule": "get/touch/set/put x {plain, sharded} writer x stack depth 1-3 x key present/absent x directories pre-populated with %s entries, trigger scripted not to fire: call count identical across sizes, no opendir, <=2 opens per directory per lookup, peak/residual descriptors from the trace cross-checked with /proc/self/fd; plus ensure/get_or_update/set/put/get with maintenance firing (reprieve + eviction), with and without checker: descriptor peak; plus every call of every fault-free execution of the C18 operation set failing once (first plausible errno): before/held/after descriptor counts from /proc/self/fd (nothing stays open but a returned handle), compared with the model under the same fault. Non-trivial = size >= 100, maintenance fired, or a fault run." % ([0, 10, 100, 600] if ctx.quick() else [0, 10, 100, 2000]),
+    cov = {"evaluations": len(res) + len(fres) + len(sres), "distinct_nontrivial": nontriv, "fault_runs": len(fres), "stale_handle_runs": len(sres),
+           "rule": "get/touch/set/put x {plain, sharded} writer x stack depth 1-3 x key present/absent x directories pre-populated with %s entries, trigger scripted not to fire: call count identical across sizes, no opendir, <=2 opens per directory per lookup, peak/residual descriptors from the trace cross-checked with /proc/self/fd; plus ensure/get_or_update/set/put/get with maintenance firing (reprieve + eviction), with and without checker: descriptor peak; plus every call of every fault-free execution of the C18 operation set failing once (first plausible errno): before/held/after descriptor counts from /proc/self/fd (nothing stays open but a returned handle), compared with the model under the same fault; plus lookups through sharded directories with each open answering ESTALE: at most two open attempts per directory. Non-trivial = size >= 100, maintenance fired, or a fault run." % ([0, 10, 100, 600] if ctx.quick() else [0, 10, 100, 2000]),
            "samples": samples[:8], "traces_validated_against_impl": len([1 for r in res if not r[4]]) + fagree}
     if not ctx.quick():
         rc, o = C.coqchk(PROPS)
